@@ -776,7 +776,7 @@ theorem run_prefix {g : Cfg} {n : Nat} (ok : POK g n) (hk : g.p.flags.toNat % 2 
         by have := hl.ts.ans_le; have := hS0.2.2.2; omega, hl.segs.trans hsg'⟩
     obtain ⟨s1, s2, dd, hsp, hd1, hd2, hq⟩ := hq
     rcases hq with ⟨c', hh, hl, hw, hzt, hkp, hpk⟩ | ⟨c', hh, hl, hkp, hfin⟩
-    · have hpoll := hh.poll (F := 100000) hN
+    · have hpoll := hh.pollT hN
       have hw' : c'.env.tr.woken = false := hw.trans hwk
       obtain ⟨k1, k2, k3, k4⟩ := keep hl
       rw [runTask_succ, hpoll]
@@ -788,7 +788,7 @@ theorem run_prefix {g : Cfg} {n : Nat} (ok : POK g n) (hk : g.p.flags.toNat % 2 
       exact ⟨hkp.same rfl rfl ⟨rfl, rfl, rfl, rfl, rfl, rfl, [], by simp, Quiet.nil⟩, k1, k2, k3, k4,
         Or.inl ⟨rfl, ⟨F, hF, hps.cong rfl rfl ⟨rfl, rfl, rfl, rfl, rfl, rfl, [], by simp, Quiet.nil⟩, hph', hlg⟩,
           hpk.inp, hpk.em⟩⟩
-    · have hpoll := hh.poll (F := 100000) hN
+    · have hpoll := hh.pollT hN
       obtain ⟨k1, k2, k3, k4⟩ := keep hl
       exact ⟨c', "RET", by rw [runTask_succ, hpoll], s1, s2, dd, hsp, hd1, hd2, hkp, k1, k2, k3, k4, Or.inr ⟨rfl, hfin⟩⟩
 
